@@ -69,6 +69,45 @@ func runE2EMixed(c *core.Ctx, nshards int, cfg string, mk func(i int) (string, i
 			r.trace, _ = pm["trace"].(string)
 			r.wr = c.RunWorker(30*time.Minute, task, string(pb))
 
+			// A worker that gave up on its own (exit 65: the harness' side of a timing assumption did not hold, typically on a
+			// loaded machine) is run once more from scratch. What the first attempt recorded is still judged: a violation in it counts.
+			var first string
+
+			if r.wr.ExitCode == 65 && !r.wr.TimedOut {
+				if st, err := os.Stat(r.trace); err == nil && st.Size() > 0 {
+					first = r.trace + ".attempt1"
+					_ = os.Rename(r.trace, first)
+				}
+
+				_ = os.Remove(r.trace + ".summary")
+				c.Logf("shard %d: worker gave up (%s), second attempt", i, tail(r.wr.Stderr, 200))
+				r.wr = c.RunWorker(30*time.Minute, task, string(pb))
+			}
+
+			if first != "" {
+				if f, err := os.OpenFile(first, os.O_APPEND|os.O_WRONLY, 0o644); err == nil {
+					_, _ = f.WriteString("{\"ev\":\"end\"}\n")
+					f.Close()
+				}
+
+				devs := c.Findings.OpenIDs(c.Prop)
+				if devs == nil {
+					devs = []string{}
+				}
+
+				tr1, err1 := c.RunTLC(core.TLCRun{Module: "TraceE2E", Cfg: cfg, Workers: 1, HeapMB: 3000, Timeout: 40 * time.Minute,
+					Env: map[string]string{"TRACE_FILE": first}, Label: fmt.Sprintf("validate-%d-attempt1", i), KnownDevs: devs})
+				if err1 == nil && tr1 != nil && tr1.Violated != "" {
+					// the first attempt's history shows a violation: that is the shard's result
+					r.trace, r.tr = first, tr1
+					if b, err := os.ReadFile(r.trace + ".summary"); err == nil {
+						_ = json.Unmarshal(b, &r.sum)
+					}
+
+					return
+				}
+			}
+
 			if b, err := os.ReadFile(r.trace + ".summary"); err == nil {
 				_ = json.Unmarshal(b, &r.sum)
 			}
